@@ -45,6 +45,8 @@ def scopes(quick: bool):
         ("Q2-double", 'k: "', 'a"\\nx4 \n', 5 if q else 6, ""),
         ("H-hexU", 'k: "\\U00', '01F"', 7 if q else 8, ""),
         ("H-hexux", 'k: "\\', 'xu0D8F"', 5 if q else 6, ""),
+        ("H-hexsign", 'k: "\\x', '-+_ 1F"', 4 if q else 5, ""),        # what int(s, 16) would accept but a hex escape does not
+        ("H-hexsign-u", 'k: "\\u0', '-+_ 1"', 4 if q else 5, ""),
         ("B-literal", "k: |", "+-12 \na#", 5 if q else 6, ""),
         ("B-folded", "k: >", "+-12 \na#", 5 if q else 6, ""),
         ("B-body-lit", "k: |\n", "a \n:", 7 if q else 9, ""),
